@@ -28,6 +28,9 @@ pub fn build(depth: usize, with_empty_ns: bool) -> Vec<Sc> {
     for (l, j) in su::naming_templates() {
         push(l.to_string(), j);
     }
+    for (l, j) in su::wide_templates() {
+        push(l.to_string(), j);
+    }
     if with_empty_ns {
         for (l, j) in su::naming_templates_empty_ns() {
             push(l.to_string(), j);
